@@ -22,6 +22,10 @@ def oracle(line: str, obs: Obs):
     inflight = {}           # conn -> set of unanswered hbh delivered to apps
     ident = {}              # conn -> host identity
     dpr_seen = set()
+    # what the recorded finding (first match by bare hop-by-hop id, in the order in which connections first had a
+    # request delivered) predicts: only failures that are exactly this are the known finding
+    k2_order: list = []
+    k2_pending: dict = {}
     for ev, lines in obs.blocks:
         t = ev.split(" ")
         if t[0] == "rx":
@@ -38,6 +42,11 @@ def oracle(line: str, obs: Obs):
                 a = l.split(" ")[1]
                 key = (int(d["cmd"]), int(d["hbh"]), int(d["e2e"]))
                 delivered.append((a, last_rx_conn.get(key), key))
+                cc0 = last_rx_conn.get(key)
+                if cc0 is not None:
+                    if cc0 not in k2_order:
+                        k2_order.append(cc0)
+                    k2_pending.setdefault(cc0, set()).add(key[1])
         if t[0] == "ans":
             a = f"a{t[1]}"
             mine = [x for x in delivered if x[0] == a]
@@ -51,7 +60,13 @@ def oracle(line: str, obs: Obs):
                 raised = any(l.startswith(f"APP {a} RAISE NotRoutable") for l in lines)
                 ok_state = state.get(c) in ("READY", "WAITDWA") and live.get(c) == "1" and c not in dpr_seen
                 first = (c, key) not in answered
-                sig = "equal_hbh_on_two_connections" if others_same_hbh else None
+                k2_conn = next((x for x in k2_order if key[1] in k2_pending.get(x, ())), None)
+                if k2_conn is not None:
+                    k2_pending[k2_conn].discard(key[1])
+                k2_sends = k2_conn is not None and state.get(k2_conn) in ("READY", "WAITDWA") and live.get(k2_conn) == "1"
+                k2_outs = [k2_conn] if k2_sends else []
+                as_k2 = [cc for cc, _ in ans_outs] == k2_outs and (raised == (not k2_sends))
+                sig = "equal_hbh_on_two_connections" if (others_same_hbh and as_k2) else None
                 # the peer has two handshaken connections and the answer went out on the other one
                 if not sig and len(ans_outs) == 1 and ans_outs[0][0] != c and ident.get(c) and ident.get(ans_outs[0][0]) == ident.get(c):
                     sig = "answer_on_peers_other_connection"
@@ -76,6 +91,9 @@ def oracle(line: str, obs: Obs):
                 d = kv(l)
                 state[c] = d["state"]
                 live[c] = d["live"]
+                if d["live"] == "0" and c in k2_order:
+                    k2_order.remove(c)
+                    k2_pending.pop(c, None)
                 if d.get("ident", "-") != "-":
                     ident[c] = d["ident"]
     return fails
@@ -99,6 +117,15 @@ def scenarios(rng: random.Random, tier: str):
             evs.append("rx 0 " + (nodegen.dpr(n(), n(), "peer1.x") if o == "dpr" else nodegen.dwa(1001, 7, "peer1.x")))
         evs.append("ans 0 0 2001")
         out.append(idle_cfg + " | " + " | ".join(evs))
+    # equal hop-by-hop ids pending on two connections, the requester that comes first leaves (DPR / loss) before the
+    # application answers its request: not routable, nothing to the other peer; the other peer's own answer still goes out
+    for leave in ("rx 0 " + nodegen.dpr(n(), n(), "peer1.x"), "eof 0", "rerr 0 hard"):
+        for order in ((0, 1), (1, 0)):
+            pre2 = cfg + " | start | " + " | ".join(f"acc | rx {i} " + nodegen.cer(names[i], "4", n(), n()) for i in range(2))
+            hb = n()
+            evs = [f"rx {order[0]} " + nodegen.ccr(hb, n(), names[order[0]]), f"rx {order[1]} " + nodegen.ccr(hb, n(), names[order[1]]),
+                   leave, "ans 0 %d 2001" % order.index(0), "ans 0 %d 2001" % order.index(1)]
+            out.append(pre2 + " | " + " | ".join(evs))
     for rep in range(120 if tier == "quick" else 2500):
         npeers = rng.randrange(1, 4)
         pre = cfg + " | start | " + " | ".join(f"acc | rx {i} " + nodegen.cer(names[i], "4", n(), n()) for i in range(npeers))
